@@ -48,6 +48,28 @@ impl Prop for C09 {
         ]
         .boxed()
     }
+    fn fixed_cases(_tier: Tier) -> Vec<Case> {
+        // more chromosomes than the chromosome tree's default block size (256), both file types
+        let bw = c01::big_case(600, 1, 300);
+        let mut bb_chroms = vec![];
+        for ci in 0..300u32 {
+            bb_chroms.push(BbChrom {
+                name: format!("scaffold{:04}", ci),
+                size: 1000 + ci,
+                entries: vec![
+                    BbEntry { s: 5, e: 300 + ci, rest: format!("a{}", ci) },
+                    BbEntry { s: 7, e: 20, rest: "b".into() },
+                ],
+            });
+        }
+        let mut o = Opts::default();
+        o.items_per_slot = 8;
+        o.threads = 2;
+        vec![
+            Case::Bw(bw),
+            Case::Bb(c02::Case { input: BbInput { chroms: bb_chroms, unused: vec![], autosql: None }, opts: o, k2_nudged: 0, delay: None }),
+        ]
+    }
     fn check(case: &Case, obs: &mut Obs) -> Result<(), String> {
         match case {
             Case::Bw(c) => {
